@@ -129,6 +129,22 @@ PROPS["C03"] = dict(
     spec={"parse_tls_plaintext": "spec.parse_tls_plaintext"},
     thorough_mult=20,
 )
+HS_ENTRIES = ["parse_tls_message_handshake", "parse_tls_handshake_client_hello", "parse_tls_handshake_server_hello",
+              "parse_tls_handshake_certificaterequest", "parse_tls_handshake_certificatestatus", "parse_tls_handshake_next_protocol",
+              "parse_tls_handshake_msg_hello_request", "parse_tls_handshake_msg_client_hello", "parse_tls_handshake_msg_server_hello",
+              "parse_tls_handshake_msg_hello_retry_request", "parse_tls_handshake_msg_certificate",
+              "parse_tls_handshake_msg_certificaterequest", "parse_tls_handshake_msg_certificatestatus",
+              "parse_tls_handshake_msg_next_protocol", "parse_tls_handshake_msg_key_update"]
+HS_LEN_ENTRIES = ["parse_tls_handshake_msg_newsessionticket", "parse_tls_handshake_msg_serverkeyexchange", "parse_tls_handshake_msg_serverdone",
+                  "parse_tls_handshake_msg_certificateverify", "parse_tls_handshake_msg_clientkeyexchange", "parse_tls_handshake_msg_finished"]
+PROPS["C04"] = dict(
+    families=[("handshake", 600), ("hsbody", 300)],
+    corpus_entries=HS_ENTRIES + HS_LEN_ENTRIES,
+    mutate_entries=HS_ENTRIES + HS_LEN_ENTRIES, mutate_budget=60, mutate_sources=500,
+    small_scope=[(e, [], 1, 4) for e in HS_ENTRIES] + [(e, [l], 1, 3) for e in HS_LEN_ENTRIES for l in (0, 1, 3, 4, 5)],
+    expect_entries=HS_ENTRIES + HS_LEN_ENTRIES,
+    thorough_mult=20,
+)
 PROPS["C16"] = dict(
     families=[("multi", 500)],
     corpus_entries=["tls_parser_many", "tls_parser", "parse_tls_plaintext", "parse_dtls_plaintext_records"],
